@@ -554,7 +554,7 @@ def mk(pid, profiles, nq, nt, **kw):
 
 
 PROPS.update({
-    "C01": dict(module="C01", modules=["C01", "C01_ledger"], run=mk("C01", ["general", "default_weights", "ttl", "queue1", "evict", "evict2"], 260, 4000, extra=kernel_extra("C01", ["is_space_available_for", "update_weight_stats"], release_extra("C01", stress2_extra("C01")))),
+    "C01": dict(module="C01", modules=["C01", "C01_ledger", "C01_micro"], run=mk("C01", ["general", "default_weights", "ttl", "queue1", "evict", "evict2"], 260, 4000, extra=kernel_extra("C01", ["is_space_available_for", "update_weight_stats"], release_extra("C01", stress2_extra("C01")))),
                 components=["weights", "admission", "api", "queue_worker", "store", "ticker"],
                 assumptions=["schedule class proved: all phase-contiguous schedules (one call / command / sweep / batch at a time; calls may be unawaited, callers may be parked); finer interleavings of the worker's check-then-add with sweeper subtractions: ledger model (Ledger.v) once built",
                              "overflow-checking (debug) profile"]),
